@@ -119,6 +119,8 @@ def binop(st, op, a, b):
     if isinstance(a, SPow2) and op is ast.Sub and const_int(b) == 1:
         return SMask(a.a)
     # ---- integers
+    if isinstance(a, SPayInt) and op is not ast.RShift or isinstance(b, SPayInt):
+        a, b = small_payint(st, a), small_payint(st, b)
     if is_intb(a) and is_intb(b):
         return _int_binop(st, op, a, b)
     # ---- float scaling: int * concrete float (DESIGN 1.5-3)
@@ -315,6 +317,8 @@ def truth(st, v):
         return bytes_len(v) != 0
     if isinstance(v, Ref):
         return True  # only list/dict/objects; emptiness of containers is handled by callers
+    if type(v).__name__ == "ExternalCallable":
+        return z3.Bool("external_callable_is_truthy")  # a user-supplied callable may define __bool__ / __len__
     if isinstance(v, Sym):
         raise EngineUnsupported(f"truth of {v!r}")
     return bool(v)
@@ -512,9 +516,30 @@ def _int_eq(x, y):
 
 
 # ----------------------------------------------------------------------------------------
+def small_payint(st, v):
+    """int.from_bytes of a view of determined length <= 8 bytes, as a bit list (arithmetic / comparison on it)."""
+    if isinstance(v, SPayInt):
+        n = determined_int(st.pc, v.view.length())
+        if n is not None and n <= 8:
+            bits = []
+            for k in range(8 * n - 1, -1, -1):
+                bits.append(v.bit_msb(k))
+            return norm(SBits(bits))
+        # length not determined but provably small (a slice clamped by the value's own length): case split on the length
+        ln = v.view.length()
+        for m in (1, 2, 3, 4, 8):
+            if entails(st.pc, z3.And(ln >= 0, ln <= m)):
+                t = z3.IntVal(0)
+                for k in range(m, 0, -1):
+                    val = z3.Sum([byte_at(st, v.view.arr, v.view.lo + i) * (256 ** (k - 1 - i)) for i in range(k)])
+                    t = z3.If(ln == k, val, t)
+                return SInt(t)
+    return v
+
+
 def compare(st, op, a, b):
     """Single comparison; returns bool / SBool."""
-    a, b = norm(a), norm(b)
+    a, b = small_payint(st, norm(a)), small_payint(st, norm(b))
     if a is UNDEF or b is UNDEF:
         raise EngineUnsupported("comparison of a havocked local without a declared kind")
     if op in (ast.Is, ast.IsNot):
